@@ -173,6 +173,8 @@ func (c *evalCtx) ev1(t *Term) uint64 {
 		return u64(f64(c.ev(a[0])) / f64(c.ev(a[1])))
 	case "fp.neg":
 		return u64(-f64(c.ev(a[0])))
+	case "fp.abs":
+		return u64(math.Abs(f64(c.ev(a[0]))))
 	case "fp.isNaN":
 		f := f64(c.ev(a[0]))
 		return b2u(f != f)
